@@ -86,6 +86,10 @@ static GLong gl_node(GLong arg)
   return arg + 1;
 }
 
+// the void flavour of the guest function (a different instantiation of the invocation path: no result to convert)
+static long g_vret;
+static void gv_node(GLong arg) { g_vret = (long)gl_node(arg); }
+
 static void run_invokes()
 {
   while (peek() == "I") {
@@ -93,11 +97,18 @@ static void run_invokes()
     int sb = atoi(next().c_str());
     long arg = (long)parse_dec(next());
     std::string fault = next();
+    bool as_void = fault.size() == 2 && fault[1] == 'v';   // "nv" / "av": invoke the void flavour
+    if (as_void) fault.pop_back();
     if (fault == "a") arg = (1L << 40) + arg; // not representable in the sandbox's 32-bit long: argument conversion aborts
     int saved = g_cur_sb; g_cur_sb = sb;
     struct Restore { int& r; int v; ~Restore() { r = v; } } restore{ g_cur_sb, saved };
-    auto r = g_sb[sb].INTERNAL_invoke_with_func_ptr<long(long)>("gl_node", reinterpret_cast<void*>(&gl_node), arg);
-    logev("r" + std::to_string(r.UNSAFE_unverified()));
+    if (as_void) {
+      g_sb[sb].INTERNAL_invoke_with_func_ptr<void(long)>("gl_node", reinterpret_cast<void*>(&gv_node), arg);
+      logev("r" + std::to_string(g_vret));
+    } else {
+      auto r = g_sb[sb].INTERNAL_invoke_with_func_ptr<long(long)>("gl_node", reinterpret_cast<void*>(&gl_node), arg);
+      logev("r" + std::to_string(r.UNSAFE_unverified()));
+    }
   }
 }
 
